@@ -1,4 +1,5 @@
 import Flatland.Run.FlatCommon
+import Flatland.Spec.C02
 open Lean
 open Flatland.J hiding Str
 namespace Flatland.Run.C02
@@ -11,6 +12,8 @@ def run (j : Json) : Except String Json := do
   let env ← parseEnv (← fld j "env")
   let ps ← parsePairs (← fld j "pairs")
   let e := fromFlat env sep s ps
-  return obj [("elem", elemJson e), ("flatten", pairsJson (flatten env sep s e))]
+  let addrs := ps.map (fun p => Json.bool (Flatland.Flat.Spec.addr env sep s (some p.1)))
+  return obj [("elem", elemJson e), ("flatten", pairsJson (flatten env sep s e)),
+              ("addr", Json.arr addrs.toArray)]
 
 end Flatland.Run.C02
